@@ -384,6 +384,11 @@ func famFlyio(r *Rng, o *Out, tier string) {
 					errClassStats(o, res)
 					o.count("vw")
 					o.emit(fmt.Sprintf("(prohibits %s %s)", sxCav(c), d.Sx("bare")), res)
+					// the property's rule itself (exact instants), against the implementation's answer
+					if res != "ok" {
+						res = "errs:spec"
+					}
+					o.emit(fmt.Sprintf("(spec.prohibits %s %s)", sxCav(c), d.Sx("bare")), res)
 				}
 			}
 		}
